@@ -282,6 +282,8 @@ def C01(tier, seed):
     m_subtags(c, binp, tier, light=True)
     m_object(c, binp, tier, edges=True, hist=False, full=False)
     m_cldr(c, binp, tier, modes=("closure",))
+    # "never loops": the ranking function of the parser as implemented decreases on every step, for every input (TLAPS)
+    m_proofs(c, "ImplProofs")
     # "total for every (language, script, region)": the whole universe (panics are caught per row and reported with the triple)
     m_sweep(c, binp, tier, parts=("und", "dir") if tier == "quick" else ("known", "und", "dir"))
     if tier == "thorough":
